@@ -242,7 +242,8 @@ pub fn monitor(o: &Obs) -> Result<(), String> {
                     let mut h = rp.headers.clone().unwrap_or_default();
                     let cid = h.remove("cid");
                     let rest = if h.is_empty() { None } else { Some(h) };
-                    if cid.as_deref() == Some(&k.to_string()) && rp.message == p.message && rest == p.headers { used[j] = true; found = true; break; }
+                    // the tag names requestor k when it parses to k the way the Router parses it (`str::parse::<usize>`: "+0", "00" are 0)
+                    if cid.as_deref().and_then(|c| c.parse::<usize>().ok()) == Some(*k) && rp.message == p.message && rest == p.headers { used[j] = true; found = true; break; }
                 }
             }
             if !found { return Err(format!("C02/C04/C08: requestor k{k} was handed {} which no replier emitted for it (misrouted, duplicated or altered)", frame_tok(f))); }
@@ -430,12 +431,16 @@ fn adopted_before(o: &Obs, cid: usize, r: &Frame) -> bool {
 fn rand_frame(r: &mut Rng, n: &mut u32, for_reply_to: Option<u64>) -> String {
     *n += 1;
     match for_reply_to {
-        Some(clients) => match r.below(12) {
-            0 => format!("m{n}"),                                   // missing tag
+        Some(clients) => match r.below(16) {
+            0 => format!("m{n}"),                                   // no headers at all
             1 => format!("m{n}[cid=zz]"),                           // malformed tag
             2 => format!("m{n}[cid=77]"),                           // unknown tag
             3 => "ok".into(),
             4 => format!("m{n}[cid={}&req_id={}]", r.below(clients.max(1)), r.below(5)),
+            5 => format!("m{n}[req_id={}]", r.below(5)),            // headers, but no tag among them
+            6 => format!("m{n}[]"),                                 // an empty header map
+            7 => format!("m{n}[{}={}]", r.pick(&["Cid", "CID", "cid_", "xcid", "ci"]), r.below(clients.max(1))),   // near-miss header names
+            8 => format!("m{n}[cid={}]", r.pick(&["+0", "00", "-0", "0_", "0.0", "0x0", "", "18446744073709551616"])), // odd spellings of a number
             _ => format!("m{n}[cid={}]", r.below(clients.max(1))),
         },
         None => match r.below(10) {
@@ -493,7 +498,7 @@ pub fn run(cfg: &Cfg) {
             "rr +c_/i:m1,p,p,p +s~r=E/p,p,p,p,p,p poll poll +s_/p,p,p poll poll +c_/i:m2,p poll poll",
             "rr +c_/i:m1,p,p,p +sf=E/p,p,p,p,p,p poll poll +s_/p,p,p poll poll +c_/i:m2,p poll poll",
             "rr +c_/i:m1,p,p,p +sr=RE/p,i:m7[cid=0],p,p,p,p poll poll +c_/i:m2,p poll +s_/p,p,p poll poll poll", "rr +c_/i:m1[cid=9],p +s_/p poll poll poll",
-            "rr +c_/p +s_/i:m1,i:m2[cid=zz],i:m3[cid=7],i:m4[cid=0],p poll poll poll",
+            "rr +c_/p +s_/i:m1,i:m2[cid=zz],i:m3[cid=7],i:m4[cid=0],p poll poll poll", "rr +c_/p +s_/i:m1[req_id=3],i:m2[],i:m3[Cid=0],i:m4[cid=0],p poll poll poll",
             // a replier whose sink is busy (Pending once / twice / while silent) while several requests are ready
             "rr +sr=PR/p,p,p,p,p +c_/i:m1,i:m2,i:m3,p,p,p poll poll poll poll", "rr +sr=PPR/p,p,p,p,p +c_/i:m1,i:m2,p,p,p poll poll poll poll poll",
             "rr +sr=PRPR/p,p,p,p,p +c_/i:m1,i:m2,p,p +c_/i:m3,i:m4,p,p poll poll poll poll poll", "rr +sf=PR/p,p,p,p +c_/i:m1,i:m2,i:m3,p,p poll poll poll poll",
